@@ -126,6 +126,11 @@ func runC04(ctx *core.Ctx) {
 					}
 				}
 				ctx.Check(good, "I2", shortFn(f)+"#getenv"+itoa(n), c.Pos(), "host variable(s) %v passed through (allowed: PATH, GOCOVERDIR, GORACE, SYSTEMROOT)", keys)
+				// a pass-through that iterates over a list of names looks at every name
+				if l, inLoop := innermostLoop(g, c.Block().Index); inLoop && len(keys) > 1 {
+					ux := uncountedExits(g, l)
+					ctx.Check(len(ux) == 0, "I2", shortFn(f)+"#getenv"+itoa(n)+":every-name", c.Pos(), "the loop over %v runs to the end of the list (a break at the first unset name hides the later ones from scripts)", keys)
+				}
 			}
 		}
 		if n == 0 {
@@ -814,6 +819,7 @@ func derivesFromStoreOfPred(b ssa.Value, m func(ssa.Value) bool) bool {
 
 func c04More(ctx *core.Ctx) {
 	p := ctx.P
+	c04Retention(ctx)
 	ctx.Rule("I3b", "exact files: the helper that writes an archive entry into the work directory opens it with O_CREATE|O_WRONLY and O_TRUNC (or O_EXCL when unique names are required), so a later, shorter entry of the same name or a reused work directory never leaves a stale tail", 1)
 	if wf := p.Func("testscript", "writeFile"); wf != nil {
 		g := graph(p, wf)
@@ -898,4 +904,106 @@ func cleanupInterruptsFirst(ctx *core.Ctx, rule string, a *ssa.Function) {
 		}
 	})
 	ctx.Check(bad == "", rule, "testscript.run$cleanup#interrupt-unconditional", intr[0].Pos(), "every wait in the clean-up is behind the loop that interrupts all background commands, unconditionally %s", bad)
+}
+
+// c04Retention: rules about what is kept and what is removed (round 4).
+func c04Retention(ctx *core.Ctx) {
+	p := ctx.P
+	ctx.Rule("I9", "a caller-supplied work-directory root is never cleaned up: on every path from 'WorkdirRoot is not empty' to the first subtest, Params.TestWork is set to true, with no further condition (the spelling of the path - a symlink, a trailing separator - must not matter)", 1)
+	ctx.Rule("I10", "removeAll first makes every directory of the tree accessible: the chmod in its walk is applied to every directory the walk reports without an error, under no other condition (a write-only or search-only directory otherwise survives, and with it the work directory and the shared root)", 1)
+	if runT := ctx.Need("I9", "testscript", "RunT"); runT != nil {
+		g := graph(p, runT)
+		var store *ssa.Store
+		g.Instrs(func(i ssa.Instruction) {
+			if st, ok := i.(*ssa.Store); ok && isTrueConst(st.Val) {
+				if fa, ok := st.Addr.(*ssa.FieldAddr); ok && ssax.FieldOf(fa) != nil && ssax.FieldOf(fa).Name() == "TestWork" {
+					store = st
+				}
+			}
+		})
+		var firstRun ssa.Instruction
+		g.Instrs(func(i ssa.Instruction) {
+			if c, ok := i.(*ssa.Call); ok && c.Call.IsInvoke() && c.Call.Method.Name() == "Run" && firstRun == nil {
+				firstRun = c
+			}
+		})
+		why := ""
+		switch {
+		case store == nil:
+			why = "RunT never sets TestWork"
+		case firstRun == nil:
+			why = "RunT starts no subtest"
+		default:
+			// the test "root given?": a comparison of (a copy of) Params.WorkdirRoot with the empty string
+			found := false
+			for _, b := range runT.Blocks {
+				if !g.Reach[b.Index] || len(g.Succs[b.Index]) != 2 {
+					continue
+				}
+				for _, sc := range g.Succs[b.Index] {
+					f, ok := g.EdgeFact(b.Index, sc)
+					if !ok {
+						continue
+					}
+					given := cmpFact([]ssax.Fact{f}, token.NEQ, func(v ssa.Value) bool {
+						return ssax.DerivedFrom(v, isFieldLoad("WorkdirRoot"), nil)
+					}, isConstStr(""))
+					if !given {
+						continue
+					}
+					found = true
+					hit, _ := g.ReachableWithout(ssax.Point{Block: sc}, func(i ssa.Instruction) bool { return i == firstRun }, func(i ssa.Instruction) bool { return i == ssa.Instruction(store) })
+					if hit != nil {
+						why = "with a root given, the subtests can start without TestWork having been set (the retention depends on something else)"
+					}
+				}
+			}
+			if !found {
+				why = "no test of WorkdirRoot against the empty string found"
+			}
+		}
+		ctx.Check(why == "", "I9", "testscript.RunT#keep-given-root", runT.Pos(), "a given WorkdirRoot always implies retention %s", why)
+	}
+	if ra := ctx.Need("I10", "testscript", "removeAll"); ra != nil {
+		n := 0
+		for _, a := range ra.AnonFuncs {
+			g := graph(p, a)
+			for _, c := range g.Calls("os.Chmod") {
+				n++
+				extra := ""
+				for _, f := range g.FactsAtInstr(c) {
+					if x, _, ok := ssax.NilCheck(f.Cond); ok {
+						if _, isPar := x.(*ssa.Parameter); isPar {
+							continue // the walk's own error
+						}
+					}
+					if cc, ok := f.Cond.(*ssa.Call); ok && cc.Call.IsInvoke() && cc.Call.Method.Name() == "IsDir" && f.Val {
+						continue
+					}
+					extra = f.Cond.String()
+				}
+				// and no directory is skipped: from "it is a directory" every path passes the chmod
+				for _, b := range a.Blocks {
+					if !g.Reach[b.Index] {
+						continue
+					}
+					for _, sc := range g.Succs[b.Index] {
+						f, ok := g.EdgeFact(b.Index, sc)
+						if !ok || !f.Val {
+							continue
+						}
+						if cc, ok := f.Cond.(*ssa.Call); ok && cc.Call.IsInvoke() && cc.Call.Method.Name() == "IsDir" {
+							if ex := g.MustPass(ssax.Point{Block: sc}, func(i ssa.Instruction) bool { return i == ssa.Instruction(c) }, false); len(ex) > 0 {
+								extra = "a directory can be passed over without the chmod (path " + ssax.TrailString(ex[0].Trail) + ")"
+							}
+						}
+					}
+				}
+				ctx.Check(extra == "", "I10", "testscript.removeAll#chmod"+itoa(n), c.Pos(), "every directory is made accessible, unconditionally (extra condition: %q)", extra)
+			}
+		}
+		if n == 0 {
+			ctx.Bad("I10", "testscript.removeAll#chmod", ra.Pos(), "removeAll does not chmod directories before removing the tree")
+		}
+	}
 }
